@@ -186,7 +186,7 @@ class Translator:
 
     def state(self, st):
         N, K = len(self.nrank), len(self.krank)
-        out = {"st": ["Inactive"] * N, "pred": [0] * N, "succ": [[] for _ in range(N)], "sur": [0] * N,
+        out = {"st": ["Inactive"] * N, "pred": [0] * N, "succ": [[] for _ in range(N)], "sur": [0] * N, "fs": [[] for _ in range(N)],
                "store": [[{"v": 0, "kids": []} for _ in range(K)] for _ in range(N)]}
         for rk, ns in st.items():
             i = self.nidx[int(rk)] - 1
@@ -194,6 +194,7 @@ class Translator:
             out["pred"][i] = self.nidx.get(ns["pred"], 0)
             out["succ"][i] = [self.nidx.get(x, 0) for x in ns["succ"]]
             out["sur"][i] = self.nidx.get(ns["sur"], 0)
+            out["fs"][i] = [self.nidx.get(x, 0) for x in ns.get("fs") or []]
             for kr, v in ns.get("store", {}).items():
                 out["store"][i][self.kidx[int(kr)] - 1]["v"] = int(v)
             for kr, ch in (ns.get("kids") or {}).items():
@@ -367,9 +368,12 @@ def run_scenarios(ck, scenarios, binary=None, timeout=900):
     return events
 
 
-def validate(ck, tr, fixpred=False, fixleave=False, fixwrap=False, timeout=900):
+def validate(ck, tr, fixpred=False, fixleave=False, fixwrap=False, timeout=900, fixdead=None):
     """run Trace_ChordKV over the translated trace; returns (viol, div, quiet, consumed) record lists"""
     text = "\n".join(json.dumps(x) for x in tr.lines) + "\n"
+    if fixdead is None:
+        import ringcheck
+        fixdead = ringcheck.CODE_FIXDEAD
     cfg = open(os.path.join(vf.VERIF, "spec", "Trace_ChordKV.cfg")).read()
     if fixpred:
         cfg = cfg.replace("FixPred = FALSE", "FixPred = TRUE")
@@ -377,6 +381,8 @@ def validate(ck, tr, fixpred=False, fixleave=False, fixwrap=False, timeout=900):
         cfg = cfg.replace("FixLeave = FALSE", "FixLeave = TRUE")
     if fixwrap:
         cfg = cfg.replace("FixWrap = FALSE", "FixWrap = TRUE")
+    if fixdead:
+        cfg = cfg.replace("FixDead = FALSE", "FixDead = TRUE")
     r = ck.tlc("Trace_ChordKV", cfg, files={"trace.ndjson": text}, workers=1, timeout=timeout)
     viol = [x for x in r.printed if x["t"] == "viol"]
     div = [x for x in r.printed if x["t"] in ("div", "opdiv")]
@@ -510,6 +516,7 @@ CONSTANTS
   FixPred = %(fixpred)s
   FixLeave = %(fixleave)s
   FixWrap = %(fixwrap)s
+  FixDead = %(fixdead)s
   MaxTry = 2
   TrackCov = %(trackcov)s
   Goal = "%(goal)s"
@@ -551,8 +558,11 @@ GOALS = ["join-refused-busy", "join-refused-pred-unsettled", "join-refused-wrong
 
 
 def mc_cfg(fixpred, fixleave, fixwrap=False, lay="Lay4", init="{1, 2, 4}", joiners="{3}", leavers="{2}", maxops=2, invs=ALL_INVS,
-           goal=None, opkinds='{"put", "get"}'):
-    return MC_CFG % dict(trackcov="TRUE" if goal else "FALSE", goal=goal or "none", opkinds=opkinds, fixpred="TRUE" if fixpred else "FALSE", fixleave="TRUE" if fixleave else "FALSE", fixwrap="TRUE" if fixwrap else "FALSE", lay=lay, init=init, joiners=joiners, leavers=leavers, maxops=maxops, invs=invs)
+           goal=None, opkinds='{"put", "get"}', fixdead=None):
+    if fixdead is None:
+        import ringcheck
+        fixdead = ringcheck.CODE_FIXDEAD
+    return MC_CFG % dict(fixdead="TRUE" if fixdead else "FALSE", trackcov="TRUE" if goal else "FALSE", goal=goal or "none", opkinds=opkinds, fixpred="TRUE" if fixpred else "FALSE", fixleave="TRUE" if fixleave else "FALSE", fixwrap="TRUE" if fixwrap else "FALSE", lay=lay, init=init, joiners=joiners, leavers=leavers, maxops=maxops, invs=invs)
 
 
 def findings_from(tr, viol, div, quiet, scenarios):
